@@ -202,6 +202,11 @@ func (fs FileServer) serveFile(w http.ResponseWriter, r *http.Request) (int, err
 			encodedFile.Close()
 			continue
 		}
+		if encodedFileInfo.IsDir() || fs.IsHidden(encodedFileInfo) {
+			// a directory of that name, or a file on the hide list, is not a sibling to serve
+			encodedFile.Close()
+			continue
+		}
 
 		// close the encoded file when we're done, and close the
 		// previously-opened file immediately to release the fd
